@@ -200,7 +200,24 @@ def _run_case_inner(c, keep):
         check_quantities(joined, res, "joined:")
         if [s.__hash__() for s in scenes] != h:
             res.append("append_scenes-modified-source")
-        return {"failed": res, "instances": sum(len(s.graph.nodes_geometry) for s in scenes)}
+        out = {"failed": res, "instances": sum(len(s.graph.nodes_geometry) for s in scenes)}
+        # node renaming, with the identifiers the code draws made predictable ("#0", "#1", ...)
+        try:
+            import itertools as _it
+            import trimesh.scene.scene as SS
+            scenes2 = [build(sp) for sp in c["specs"]]
+            ins = [[[str(a), str(b)] for a, b, _ in s.graph.to_edgelist()] for s in scenes2]
+            cnt, saved = _it.count(), SS.util.unique_id
+            SS.util.unique_id = lambda *a_, **k_: "#%d" % next(cnt)
+            try:
+                j2 = SS.append_scenes(scenes2)
+            finally:
+                SS.util.unique_id = saved
+            out["append_tie"] = {"inputs": ins, "result": [[str(a), str(b)] for a, b, _ in j2.graph.to_edgelist()],
+                                 "base": str(j2.graph.base_frame)}
+        except Exception as e_:
+            out["append_tie"] = {"err": repr(e_)[:200]}
+        return out
     s = build(c["spec"])
     keep.append(s)
     if k == "readd":
@@ -325,7 +342,21 @@ def _q(x):
     return [n, d]
 
 
+STATS = {}
+BIG = 10 ** 6
+
+
+def _append_ids(tie):
+    names = sorted({n for sc in tie["inputs"] for e in sc for n in e} | {tie["base"]})
+    return {n: i for i, n in enumerate(names)}
+
+
 def model_request(c, o):
+    if isinstance(o, dict) and "inputs" in o.get("append_tie", {}):
+        tie = o["append_tie"]
+        ids = _append_ids(tie)
+        return {"p": "C10", "op": "append", "scenes": [[ids[n] for e in sc for n in e] for sc in tie["inputs"]],
+                "common": [ids[tie["base"]]], "big": BIG}
     ms = o.get("model_scene") if isinstance(o, dict) else None
     if not ms:
         return None
@@ -337,6 +368,23 @@ def model_request(c, o):
 def compare(c, o, m):
     if "err" in m:
         return "model error: " + str(m["err"])
+    if "renamed" in m:
+        import re
+        tie = o["append_tie"]
+        ids = _append_ids(tie)
+
+        def ident(name):
+            k_ = re.search(r"#(\d+)$", name)
+            if k_ and name not in ids:
+                return BIG + int(k_.group(1))
+            return ids.get(name, -1)
+        want = {(r[i], r[i + 1]) for r in m["renamed"] for i in range(0, len(r), 2)}
+        got = {(ident(a), ident(b)) for a, b in tie["result"]}
+        if want != got:
+            return "append_scenes: edges after renaming differ from the model: only in model %r, only in code %r" % (
+                sorted(want - got)[:4], sorted(got - want)[:4])
+        STATS["append_renamings_compared"] = STATS.get("append_renamings_compared", 0) + 1
+        return None
     from fractions import Fraction
     f = lambda q: float(Fraction(q[0], q[1]))  # noqa
     ms = o["model_scene"]
